@@ -148,6 +148,32 @@ pub fn oracle_offsets(sub: &str, p: &Package, rank: u64, case: &dyn Fn() -> Valu
         Ok((_, Err(e))) => return bad("write", e),
         Ok((o, Ok(w))) => (o, w),
     };
+    // the same bytes must come out whatever the sink's appetite (the offsets describe "the" written bytes)
+    for chunk in [1usize, 3] {
+        struct Small {
+            out: Vec<u8>,
+            chunk: usize,
+        }
+        impl std::io::Write for Small {
+            fn write(&mut self, b: &[u8]) -> std::io::Result<usize> {
+                let n = b.len().min(self.chunk);
+                self.out.extend_from_slice(&b[..n]);
+                Ok(n)
+            }
+            fn flush(&mut self) -> std::io::Result<()> {
+                Ok(())
+            }
+        }
+        let mut sm = Small { out: vec![], chunk };
+        match catch(|| p.write(&mut sm)) {
+            Ok(Ok(())) if sm.out == w => {}
+            Ok(Ok(())) => {
+                let at = sm.out.iter().zip(w.iter()).position(|(a, b)| a != b).unwrap_or(sm.out.len().min(w.len()));
+                bad("written-bytes-depend-on-sink", format!("a sink taking {} byte(s) per call received {} bytes, a Vec {}; first difference at {} (segments after it no longer start at the reported offsets)", chunk, sm.out.len(), w.len(), at));
+            }
+            _ => bad("written-bytes-depend-on-sink", format!("writing to a sink taking {} byte(s) per call fails", chunk)),
+        }
+    }
     // independent scan of the written bytes
     let Some((_, _, _, l)) = scan_opts(&w, false) else {
         return bad("scan", "written package cannot be scanned".into());
